@@ -55,8 +55,8 @@ CONSTANTS Defects,        \* subset of DefectNames
           SchemeClasses,  \* URI scheme classes (uninterpreted; instantiated by the harness)
           CharClasses     \* user/password character classes (uninterpreted; instantiated by the harness)
 
-CodeDefects == {"walk_fconfig_only", "facets_unmasked", "errors_quote_clear"}
-DefectNames == CodeDefects \cup {"reader_source_clear", "writer_log_clear"}
+CodeDefects == {}   \* the deviations found (walk_fconfig_only, facets_unmasked, errors_quote_clear) were repaired by fix: commits ec257f7, 1cdf774, 07cec47
+DefectNames == {"walk_fconfig_only", "facets_unmasked", "errors_quote_clear", "reader_source_clear", "writer_log_clear"}
 ASSUME Defects \subseteq DefectNames
 
 AllClasses == {"Filter", "VideoIn", "VideoOut", "ImageIn", "ImageOut", "MQTTOut", "Recorder", "REST", "Util", "Webvis"}
@@ -64,7 +64,6 @@ ASSUME Classes \subseteq AllClasses
 
 Tops       == {"dict", "fconfig"}                       \* class of the object handed to Filter(config) / Filter.run(config)
 Containers == {"list", "tuple", "dict", "adict", "fconfig"}
-DictLike   == {"dict", "adict", "fconfig"}
 Nestings   == UNION {[1..n -> Containers] : n \in 0..MaxDepth}
 Sinks      == {"constructor_log", "reader_log", "writer_log", "meta_src", "lineage_start", "lineage_other", "error_log"}
 Status     == {"absent", "masked", "clear"}             \* what a sink shows of the credential
@@ -231,6 +230,7 @@ StatusRec(st, D) == [s \in Sinks |-> Shows(st, s, D)]
 Vec(st) ==
   [cls |-> st.cls, top |-> st.top, key |-> st.key, nest |-> st.nest, depth |-> Len(st.nest), leaf |-> st.leaf,
    fault |-> st.fault, schemes |-> SetToSeq(SchemesOf(st)),
+   norm_nest |-> NormNest(st), norm_leaf |-> NormLeaf(st),
    logged_top |-> LoggedTop(st), logged_nest |-> LoggedNest(st), path |-> PathKind(st),
    code |-> StatusRec(st, CodeDefects), design |-> StatusRec(st, {})]
 
